@@ -306,17 +306,20 @@ def selectRoute (rx : RxOracle) (req : Req) (rules : List Rule) : Option Nat :=
 
 /-- `GetAllRoutesFromEntries`: indices of the returned rules -/
 def allRoutes (rx : RxOracle) (req : Req) (rules : List Rule) : List Nat :=
-  (List.range rules.length).filter (fun i => match rules[i]? with
-    | some r => matchRule rx req r
-    | none => false)
+  (List.range rules.length).filter (fun i => (rules[i]?).any (matchRule rx req))
 
-/-- `MatchRoute`: (virtual-host index, rule index) -/
-def matchRoute (rx : RxOracle) (t : Tables) (rules : List (List Rule)) (req : Req) : Option (Nat × Nat) :=
-  let i := findVirtualHost t (req.var varHost)
-  if i < 0 then none
-  else match rules[i.toNat]? with
-    | none => none
-    | some rs => (selectRoute rx req rs).map (fun j => (i.toNat, j))
+/-- the rules of virtual host `i` as `NewVirtualHostImpl` built them -/
+def rulesOf (cfg : Config) (i : Nat) : List Rule :=
+  match cfg[i]? with
+  | some v => (match mkRules v.routers with | .ok rs => rs | .error _ => [])
+  | none => []
+
+/-- what `MatchRoute` and `MatchAllRoutes` return for a request on the routers built from `cfg`:
+(virtual-host index or −1, index of the returned rule, indices of all returned rules) -/
+def answer (rx : RxOracle) (t : Tables) (cfg : Config) (req : Req) : Int × Option Nat × List Nat :=
+  let vh := findVirtualHost t (req.var varHost)
+  if vh < 0 then (vh, none, [])
+  else (vh, selectRoute rx req (rulesOf cfg vh.toNat), allRoutes rx req (rulesOf cfg vh.toNat))
 
 /-! ## Spec: the documented behaviour, written declaratively from the *configuration* -/
 namespace Spec
@@ -393,10 +396,13 @@ def headerHolds (rx : RxOracle) (req : Req) (h : HeaderCfg) : Bool :=
     else true
   else decide (req.hdr h.name = some h.value)
 
-/-- the effective `method` matcher of an HTTP rule: the last `method` entry (MOSN keeps the matchers that are
-request variables in a map keyed by the variable) -/
-def methodOf (hs : List HeaderCfg) : Option Str :=
-  ((hs.filter (fun h => decide (h.name = ['m', 'e', 't', 'h', 'o', 'd']))).getLast?).map (·.value)
+/-- the effective `method` matcher of an HTTP rule: the **last** `method` entry (MOSN keeps the matchers that
+are request variables in a map keyed by the variable, so a later entry replaces an earlier one) -/
+def methodOf : List HeaderCfg → Option Str
+  | [] => none
+  | h :: r => match methodOf r with
+    | some m => some m
+    | none => if h.name = ['m', 'e', 't', 'h', 'o', 'd'] then some h.value else none
 
 /-- header + method matchers of an HTTP rule -/
 def httpHeadersHold (rx : RxOracle) (req : Req) (hs : List HeaderCfg) : Bool :=
@@ -450,6 +456,16 @@ def ruleHolds (rx : RxOracle) (req : Req) (m : MatchCfg) : Bool :=
 
 /-- **first match**: index of the first configured route whose matchers all hold -/
 def route (rx : RxOracle) (req : Req) (ms : List MatchCfg) : Option Nat := ms.findIdx? (ruleHolds rx req)
+
+/-- indices of all configured routes whose matchers hold -/
+def routesAll (rx : RxOracle) (req : Req) (ms : List MatchCfg) : List Nat :=
+  (List.range ms.length).filter (fun j => (ms[j]?).any (ruleHolds rx req))
+
+/-- the documented answer: virtual host by precedence, then first match within it -/
+def answer (rx : RxOracle) (cfg : Config) (req : Req) : Int × Option Nat × List Nat :=
+  let vh := vhost cfg (req.var ['x', '-', 'm', 'o', 's', 'n', '-', 'h', 'o', 's', 't'])
+  let ms := match cfg[vh.toNat]? with | some v => v.routers | none => []
+  if vh < 0 then (vh, none, []) else (vh, route rx req ms, routesAll rx req ms)
 
 end Spec
 
